@@ -60,5 +60,8 @@ func H_C27_stop_deadline_paths_are_silent() { H_C08_stop_obeys_its_deadline_and_
 //vp:override bs.readPooledBlockRowData=vpReadRowDataStub
 //vp:override (*bs.compiledRowMatcher).matchRowBytes=vpMatchStub
 //vp:override bs.materializeRow=vpMaterializeStub
-//vp:bounds as H_C21_query_teardown_releases_everything: query paths with store faults, cancellation and Close
-func H_C27_query_paths_are_silent() { vpQueryTeardownBody(false) }
+//vp:bounds as H_C21_query_teardown_releases_everything: query paths with store faults, cancellation and Close, plus read handles whose Close fails
+func H_C27_query_paths_are_silent() {
+	vpReadCloseMayFail = true // also: a discarded or pooled handle whose Close reports an error
+	vpQueryTeardownBody(false)
+}
